@@ -17,7 +17,10 @@ import (
 // without passing a Barrier instruction or a barrier edge?
 type Cut struct {
 	Fn      *ssa.Function
-	Start   func(in ssa.Instruction) bool
+	// StartBlocks: paths start at the beginning of these blocks (e.g. the successor of a
+	// particular branch edge) instead of the function entry.
+	StartBlocks []*ssa.BasicBlock
+	Start       func(in ssa.Instruction) bool
 	Target  func(in ssa.Instruction) bool
 	Barrier func(in ssa.Instruction) bool
 	Edge    func(ifi *ssa.If, succ int) bool // true: this edge satisfies (is removed)
@@ -74,7 +77,11 @@ func (q *Cut) Run() *Witness {
 	if len(q.Fn.Blocks) == 0 {
 		return nil
 	}
-	if q.Start == nil {
+	if len(q.StartBlocks) > 0 {
+		for _, b := range q.StartBlocks {
+			push(pt{b, 0}, -1)
+		}
+	} else if q.Start == nil {
 		push(pt{q.Fn.Blocks[0], 0}, -1)
 	} else {
 		for _, b := range q.Fn.Blocks {
@@ -400,5 +407,25 @@ func findInstrs(fn *ssa.Function, p IP) []ssa.Instruction {
 			out = append(out, in)
 		}
 	})
+	return out
+}
+
+// edgeSuccs returns the successor blocks of all branch edges establishing r.
+func edgeSuccs(fn *ssa.Function, r Rel) []*ssa.BasicBlock {
+	var out []*ssa.BasicBlock
+	for _, b := range fn.Blocks {
+		if len(b.Instrs) == 0 {
+			continue
+		}
+		ifi, ok := b.Instrs[len(b.Instrs)-1].(*ssa.If)
+		if !ok {
+			continue
+		}
+		for s := 0; s < 2; s++ {
+			if EdgeImplies(ifi, s, r, false) {
+				out = append(out, b.Succs[s])
+			}
+		}
+	}
 	return out
 }
